@@ -4,6 +4,7 @@ Differential monitor (file-level vs string-level validation of the same rows), l
 generated table, and a permutation relation (issues keyed by the identity of the generating row).
 """
 import copy
+import os
 import io
 import json
 
@@ -60,7 +61,8 @@ def shards(tier, seed):
 def make_case(gen, rng):
     gen.make_defs(rng.randrange(2, 4))
     defs = gen.def_strings()
-    kind = rng.choice(["tabular", "tabular", "tabular-tsv", "spreadsheet"])
+    kind = rng.choice(["tabular", "tabular", "tabular-tsv", "spreadsheet", "tabular-labels", "spreadsheet-xlsx",
+                       "spreadsheet-labels"])
     b = tables.gen_bundle(gen, rng, nrows=rng.randrange(2, 7), valid_cells=rng.random() < 0.7, empty_cells=False,
                           with_onset=rng.random() < 0.7)
     cols = b["columns"]
@@ -106,7 +108,7 @@ def make_case(gen, rng):
                 faults.append(dict(row=ri, col="HED", code=m["code"], kind=m["kind"]))
     # a fault inside a sidecar entry: every row selecting that key carries it, in a column that is not the first one
     cats = [c for c, k in b["kinds"].items() if k == "categorical" and c in cols]
-    if kind != "spreadsheet" and cats and not tables.refs_of(b) and rng.random() < 0.3:
+    if not kind.startswith("spreadsheet") and cats and not tables.refs_of(b) and rng.random() < 0.3:
         c = rng.choice(cats)
         key = rng.choice(list(b["sidecar"][c]["HED"]))
         try:
@@ -124,7 +126,7 @@ def make_case(gen, rng):
         oi = cols.index("onset")
         k = rng.randrange(1, len(b["rows"]))
         b["rows"][k][oi] = b["rows"][k - 1][oi]          # two rows share an onset
-    if kind == "spreadsheet":
+    if kind.startswith("spreadsheet"):
         b = dict(b, sidecar={}, kinds={})
     return dict(kind=kind, bundle=b, defs=defs, faults=faults)
 
@@ -136,13 +138,36 @@ def build_input(case, rows=None):
     from hed.models.sidecar import Sidecar
     b = case["bundle"]
     rows = b["rows"] if rows is None else rows
-    if case["kind"] == "spreadsheet":
+    def relabel(df):
+        # a frame whose index is not 0..n-1 (e.g. what is left after filtering or re-ordering another frame)
+        n = len(df)
+        lab = [3 * i + 7 for i in range(n)]
+        lab = lab[n // 2:] + lab[:n // 2]
+        df.index = lab
+        return df
+    if case["kind"] == "spreadsheet-xlsx":
+        import openpyxl
+        wb = openpyxl.Workbook()
+        ws = wb.active
+        ws.append(list(b["columns"]))
+        for i, r in enumerate(rows):
+            # an empty Excel cell is the usual way to write 'nothing here'
+            ws.append([None if (c in ("n/a", "") and (i + j) % 2 == 0) else c for j, c in enumerate(r)])
+        path = os.path.join(env.scratch(), f"c07-{os.getpid()}.xlsx")
+        wb.save(path)
+        return SpreadsheetInput(path, tag_columns=["HED"], name="sheet")
+    if case["kind"].startswith("spreadsheet"):
         df = pd.DataFrame(rows, columns=b["columns"])
+        if case["kind"] == "spreadsheet-labels":
+            df = relabel(df)
         return SpreadsheetInput(df, tag_columns=["HED"], name="sheet")
     sidecar = Sidecar(io.StringIO(json.dumps(b["sidecar"]))) if b["sidecar"] else None
     if case["kind"] == "tabular-tsv":
         return TabularInput(io.StringIO(tables.to_tsv(dict(b, rows=rows))), sidecar, name="events")
-    return TabularInput(pd.DataFrame(rows, columns=b["columns"]), sidecar, name="events")
+    df = pd.DataFrame(rows, columns=b["columns"])
+    if case["kind"] == "tabular-labels":
+        df = relabel(df)
+    return TabularInput(df, sidecar, name="events")
 
 
 def err_codes(issues, skip_temporal=True):
@@ -171,7 +196,11 @@ def check_case(case, rec):
         issues = obj.validate(schema, extra_def_dicts=dd)
     except Exception as ex:  # noqa
         key = None
-        if type(ex).__name__ == "TypeError" and "delay/" in json.dumps(b["rows"]).casefold():
+        if case["kind"].endswith("-labels"):
+            key = "frame-index-not-default"
+        elif case["kind"] == "spreadsheet-xlsx" and type(ex).__name__ == "TypeError":
+            key = "xlsx-empty-cell"
+        elif type(ex).__name__ == "TypeError" and "delay/" in json.dumps(b["rows"]).casefold():
             key = "delay-unit-no-factor"
         rec.violation(f"file validation raised {type(ex).__name__}", case, key=key)
         return
@@ -189,7 +218,8 @@ def check_case(case, rec):
     for i in issues:
         r = i.get("ec_row")
         if r is not None and not (2 <= r <= n + 1):
-            rec.violation("issue labelled with a row outside 2..n+1", dict(case, issue_code=i["code"], ec_row=r))
+            rec.violation("issue labelled with a row outside 2..n+1", dict(case, issue_code=i["code"], ec_row=r),
+                          key="frame-index-not-default" if case["kind"].endswith("-labels") else None)
             return
         c = i.get("ec_column")
         if c is not None and r is not None:
@@ -254,7 +284,7 @@ def check_case(case, rec):
                           dict(case, row=r, text=text, string_level=want, file_level=got))
     # ---- faults are located (rows with a unique onset whose other cells are clean)
     for f in case["faults"]:
-        if case["kind"] != "spreadsheet" and "HED" in tables.refs_of(b):
+        if not case["kind"].startswith("spreadsheet") and "HED" in tables.refs_of(b):
             continue                                    # the HED cell is spliced into another column
         r = f["row"]
         if onsets is not None and not isolated[r]:
